@@ -13,6 +13,19 @@ import (
 	"time"
 )
 
+// wdStarted is the real time (unix ns) at which the execution now running
+// began; 0 while no plan runs. Every Bubble resets it, so the wall-clock
+// watchdog bounds one simulated execution, not a whole fault-enumerating plan
+// (thousands of executions, legitimately minutes on a loaded machine).
+var wdStarted atomic.Int64
+
+// petWatchdog is called at the start of every bubble.
+func petWatchdog() {
+	if wdStarted.Load() != 0 {
+		wdStarted.Store(time.Now().UnixNano())
+	}
+}
+
 // Exit codes of a worker process.
 const (
 	ExitOK       = 0
@@ -70,7 +83,7 @@ func WorkerMain(t *testing.T, e Engine) {
 	// the only place where real time decides anything (DESIGN 2.7): a CPU spin
 	// or a mutex deadlock never lets the fake clock advance.
 	var epoch atomic.Int64 // plan counter; watchdog compares
-	var started atomic.Int64
+	started := &wdStarted
 	go func() {
 		for {
 			time.Sleep(250 * time.Millisecond)
